@@ -197,7 +197,7 @@ PROPS["C16"] = conv_entry(
     "the value-level drivers of C01, C02, C03, C05, C06, C08, C10, C11, C12, C14 re-run at 64 and 192 bits (four digit types each) with one outcome group required per call; "
     "non-trivial = an event executed on at least two digit types, a narrow/wide event, or a constant other than ZERO",
     lambda e: True,
-    extra={"quick": [("arith", "C01", [64]), ("arith", "C02", [192]), ("arith", "C03", [192]), ("bits", "C05", [192]), ("bits", "C06", [64]), ("arith", "C08", [64]),
+    extra={"quick": [("arith", "C01", [64]), ("arith", "C02", [192, 2080]), ("arith", "C03", [192]), ("bits", "C05", [192]), ("bits", "C06", [64]), ("arith", "C08", [64]),
                      ("text", "C10", [64]), ("text", "C11", [192]), ("text", "C12", [64]), ("float", "C14", [192])],
            "thorough": [(b, p, [32, 64, 96, 128, 192, 256]) for (b, p) in [("arith", "C01"), ("arith", "C02"), ("arith", "C03"), ("bits", "C05"), ("bits", "C06"), ("bits", "C07"), ("arith", "C08"),
                                                                         ("text", "C10"), ("text", "C11"), ("text", "C12"), ("float", "C14"), ("float", "C19"), ("traits", "C18")]]})
